@@ -193,7 +193,7 @@ theorem shutdown_begins_if_handled_in_turn_partial (cap : Nat) (hcap : 0 < cap) 
   rw [sequential_delivery_is_the_event_machine .reselects cap hcap]
   rw [listener_reacts n last h]
 
-/-- **Negation with witness (recorded finding).** Capacity 1, as in `exit.Listen`: a SIGTERM that arrives before the
+/-- **Negation with witness (D32, fixed by 5d789c0).** Capacity 1, as in `exit.Listen` as shipped: a SIGTERM that arrives before the
 goroutine has handled the preceding SIGHUP is dropped — when the goroutine runs it sees the SIGHUP only, goes back to
 waiting, and the shutdown never begins. With capacity 2 the same schedule calls the handler. `exit.Exit` in the same
 position is not lost. Replayed by `corpus/c18.exit.jsonl` (class `sigterm-right-after-sighup`). -/
@@ -211,6 +211,60 @@ theorem shutdown_begins_full_statement_fails :
   decide
 
 example : runActs .reselects 1 (sequential (history 2 (.sig .int))) = (.ran (some .int), []) := by decide
+
+/-! ### after the repair (5d789c0): one channel with room for a burst -/
+
+/-- a schedule in bursts: the signals of each burst arrive before the goroutine runs once -/
+def bursts (bs : List (List Ev)) : List Act := bs.flatMap (fun b => b.map Act.arrives ++ [.runs])
+
+theorem deliver_burst (cap : Nat) (b : List Ev) : ∀ q : List Ev, q.length + b.length ≤ cap →
+    b.foldl (deliver cap) q = q ++ b := by
+  induction b with
+  | nil => intro q _; simp
+  | cons e es ih =>
+    intro q h
+    simp only [List.length_cons] at h
+    have hd : deliver cap q e = q ++ [e] := by
+      unfold deliver
+      by_cases he : e = .exitCall
+      · simp [he]
+      · have : q.length < cap := by omega
+        simp [he, this]
+    simp only [List.foldl_cons, hd]
+    rw [ih (q ++ [e]) (by simp; omega)]
+    simp
+
+theorem arrivals_fold (c : ListenContract) (cap : Nat) (b : List Ev) (l : LState) (q : List Ev) :
+    (b.map Act.arrives).foldl (stepAct c cap) (l, q) = (l, b.foldl (deliver cap) q) := by
+  induction b generalizing q with
+  | nil => rfl
+  | cons e es ih => simp only [List.map_cons, List.foldl_cons, stepAct]; exact ih _
+
+/-- **bursts_within_capacity_lose_nothing.** After the repair (one channel of capacity `cap`, registered once): as long
+as no more than `cap` signals arrive between two runs of the listener goroutine, the delivery-level machine does exactly
+what the event-level one does with all of them, in order — for every schedule in bursts. With `cap = 16` a SIGTERM
+right after a SIGHUP (a burst of two) is received. -/
+theorem bursts_within_capacity_lose_nothing (c : ListenContract) (cap : Nat) (bs : List (List Ev))
+    (h : ∀ b ∈ bs, b.length ≤ cap) :
+    ∀ l : LState, (bursts bs).foldl (stepAct c cap) (l, []) = (runListener c l bs.flatten, []) := by
+  induction bs with
+  | nil => intro l; rfl
+  | cons b bs ih =>
+    intro l
+    have hb : b.length ≤ cap := h b (by simp)
+    have ih' := ih (fun b' hb' => h b' (by simp [hb']))
+    simp only [bursts, List.flatMap_cons, List.foldl_append, List.foldl_cons, List.foldl_nil, arrivals_fold,
+      deliver_burst cap b [] (by simpa using hb), List.nil_append, stepAct, List.flatten_cons] at ih' ⊢
+    rw [ih']
+    simp [runListener, List.foldl_append]
+
+/-- the shutdown begins for a SIGHUP and a terminating signal arriving in one burst, capacity ≥ 2 -/
+theorem signal_right_after_sighup_is_received (cap : Nat) (hcap : 2 ≤ cap) (last : Ev) (h : last ≠ .hup) :
+    runActs .reselects cap (bursts [[.hup, last]]) = (.ran (sigOf last), []) := by
+  simp only [runActs]
+  rw [bursts_within_capacity_lose_nothing .reselects cap [[.hup, last]] (by simpa using hcap)]
+  have := listener_reacts 1 last h
+  simpa [history] using this
 
 /-! ### non-vacuity -/
 example : run .reselects (initial 2) (history 3 (.sig .term)) =
